@@ -125,6 +125,7 @@ let parse_atom (s : str) : atom =
   | 'i' -> AInt (z_of_str rest)
   | 'f' -> AFloat (bytes_of_hex rest)
   | 't' -> ABool (rest = "1")
+  | 'a' -> AByteArr (bytes_of_hex (if rest = "" then "-" else rest))
   | _ -> AOther
 let parse_val (s : str) : cval =
   if s.[0] = '[' then
@@ -180,6 +181,7 @@ let atom_str = function
   | AFloat b -> "f" ^ hex_of_bytes b
   | ABool b -> if b then "t1" else "t0"
   | AOther -> "o"
+  | AByteArr b -> "a" ^ (let h = hex_of_bytes b in if h = "-" then "" else h)
 let val_str = function
   | VOne a -> atom_str a
   | VMany l -> "[" ^ String.concat ";" (List.map atom_str l) ^ "]"
@@ -243,6 +245,15 @@ let () =
     | ["RUN"; fuel; script; cache] ->
       let o = run_script orc !cfg (nat_of_int (int_of_string fuel)) (bytes_of_hex script) (parse_cache cache) in
       print_string ("= " ^ outcome_str o ^ "\n")
+    | ["RUNF"; fuel; fcode; script; cache] ->
+      let o = run_script_fork orc !cfg (nat_of_int (int_of_string fcode)) (nat_of_int (int_of_string fuel)) (bytes_of_hex script) (parse_cache cache) in
+      print_string ("= " ^ outcome_str o ^ "\n")
+    | "AUTHF" :: fuel :: fcode :: cache :: scripts ->
+      let r = run_auth_fork orc !cfg (nat_of_int (int_of_string fcode)) (nat_of_int (int_of_string fuel)) (List.map bytes_of_hex scripts) (parse_cache cache) in
+      (match r with
+       | AuthVerdict (b, st) -> print_string ("= verdict:" ^ (if b then "1" else "0") ^ " | " ^ state_str None st ^ "\n")
+       | AuthFuel -> print_string "= fuel\n"
+       | AuthUnmod w -> print_string ("= unmod:" ^ string_of_coq w ^ "\n"))
     | "AUTH" :: fuel :: cache :: scripts ->
       let r = run_auth_scripts orc !cfg (nat_of_int (int_of_string fuel)) (List.map bytes_of_hex scripts) (parse_cache cache) in
       (match r with
